@@ -13,6 +13,18 @@ CHECKS = {
    text="Bounded symbolic model checking of trackWrite/getRangeToRead with go-immutable-radix run from source: all sequences of 3 (thorough 4) writes with offset 0..200, length 1..55 and all probe offsets/lengths, plus one inductive step from an arbitrary valid pre-state of up to 3 disjoint ranges (covers histories of any length within that footprint); oracle = union of written ranges; also that the marker representation invariant is preserved.",
    note="Trusted: go/ssa, gosmt interpreter (natively cross-validated), sync.Mutex model. Outside: offsets >= 256 (multi-byte key divergence in the radix tree), negative offsets, zero-length writes, more than 3 pre-existing ranges in the step harness.",
    design="DESIGN.md §6 C22"),
+ "C13": dict(
+   text="Bounded symbolic model checking of the purge safety kernels on the real code: checkAndDeleteKey as one step from an arbitrary key state (indexed or not, KV error, blob update time vs index time symbolic, 0..3 transient GetAttr failures, dry-run) - a blob is deleted only if unindexed and its update time was actually read and is not after the index time; the uploader's final loop + chunkUploader + dbReader with a chunk write that fails after consuming any number of bytes and is retried - every key marked uploaded is in a stored chunk whenever the uploader reports success; bundleKeys from a KV pre-state holding a root with or without its leaves - every key of a scanned entry ends up indexed (known finding C13-F3).",
+   note="Trusted: go/ssa, gosmt interpreter (natively cross-validated), in-memory store/KV models, backoff.Retry = at most 3 attempts, yaml.v2 as round-tripping opaque documents, tickers never fire. Outside: the PurgeBuildReverseIndex/PurgeDeleteUnused drivers as a whole (errgroup fan-out over repos, monitors), pebble/badger themselves, uploads racing with the two phases, list-page faults.",
+   design="DESIGN.md §6 C13"),
+ "C14": dict(
+   text="Bounded symbolic model checking of the fault-free purge kernels on the real code: the index chunk byte stream (dbReader.Read with every buffer size 1..12, up to 3 keys, marked/unmarked, maxKeys 1..3) is exactly timestamp line + unmarked keys and parses back (loadChunk) to the same key set and time; the uploader tail partitions the unmarked keys into chunks of <= chunkSize in order and stops after the first empty chunk; checkAndDeleteKey deletes iff not indexed and not newer than the index and not dry-run; scanBlob examines every blob key exactly once for every page size 1..5 and deletes exactly the unindexed ones; PurgeLock is create-if-absent unless forced.",
+   note="Trusted: as C13. Outside: chunk sizes / key counts beyond the bounds, concurrent lock acquisition interleavings (the lock is a single NoOverWrite Put; atomicity is the store's), extra contexts, the drivers as a whole.",
+   design="DESIGN.md §6 C14"),
+ "C18": dict(
+   text="Bounded symbolic model checking of the mutable mount's inode allocator (allocINode/freeINode, real code): one inductive step (alloc or free of a live id) from an arbitrary valid allocator state (highest inode first..first+6, free list of <= 3 distinct ids) preserves the representation invariant and changes the live set by exactly the allocated / freed id, and two allocations in a row never return the same or an in-use id. Partial: the namespace operations (mkdir/create/rename/unlink/rmdir/lookup/forget) and commit are not yet covered.",
+   note="Trusted: go/ssa, gosmt interpreter (natively cross-validated), sync.Mutex model. Outside: every file-system operation other than inode allocation; free lists longer than 3.",
+   design="DESIGN.md §6 C18"),
 }
 
 NOT_APPLICABLE = {
